@@ -435,6 +435,10 @@ class _Gen:
         r, s, f = self.r, self.spec, self.f
         items: List[Item] = []
         m.doc = self.doc(f'module #{m.mid}', [])
+        if f.docstyle == 'epytext' and m.doc and r.random() < .3:
+            # section titles (same syntax in epytext and reST): the page gets a table of contents
+            t1, t2 = f'Section s{r.randrange(10**5):05d}', f'Other part s{r.randrange(10**5):05d}'
+            m.doc += f'\n\n{t1}\n{"=" * len(t1)}\n\nText of the section.\n\n{t2}\n{"=" * len(t2)}\n\nMore text.'
         visible: List[Tuple[str, Optional[int]]] = []       # class expressions usable as bases here
         refs: List[str] = []
         local_names: Dict[str, Tuple[str, Any]] = {}
@@ -657,6 +661,9 @@ class _Gen:
         r, s, f = self.r, self.spec, self.f
         items: List[Item] = []
         p.doc = self.doc(f'package #{p.mid}', [])
+        if f.docstyle == 'epytext' and p.doc and r.random() < .3:
+            t1 = f'Package section s{r.randrange(10**5):05d}'
+            p.doc += f'\n\n{t1}\n{"=" * len(t1)}\n\nText of the section.'
         subtree = [x for x in s.mods if not x.is_pkg and x.mid != p.mid and s.modname(x.mid).startswith(s.modname(p.mid) + '.')]
         allnames: List[str] = []
         if f.reexports:
